@@ -30,6 +30,7 @@ func runC14(c *Ctx) {
 	c.rule("O6", "every attempt tests the context before it calls the operation (retry-go only looks at the context while it waits between attempts)", 1)
 	c.rule("O7", "a value of a header is only taken from the list the header map holds where that list was found non-empty (or through Header.Get)", 1)
 	c.rule("O8", "the Retry-After header is looked at only on paths where the status code was found equal to 429 or to 503 (equality tests only, both codes present): an ordering test would let other statuses through", 1)
+	c.rule("O9", "a wait computed from the clock (time.Until, Time.Sub) is clamped at zero before it is used: the value goes nowhere but into a comparison or a merge whose lower bound is 0", 1)
 	c.rule("O2", "a header-derived number multiplied into a time.Duration is clamped to [0, MaxInt64/multiplier] on every path", 1)
 	c.rule("O3", "the Apply siblings share the Retry-After prologue: consulted only under ConsiderRetryAfter, hint returned exactly when found", 3)
 	c.rule("O4", "fall-backs: constant → min; linear → LinearJitterBackoff(min,max,attempt,resp); exponential → max unless the wait is representable and ≤ max", 3)
@@ -41,6 +42,7 @@ func runC14(c *Ctx) {
 	c.c14Selection()
 	c.c14HeaderValues()
 	c.c14StatusGate()
+	c.c14ClockWaits()
 }
 
 const retryGo = "github.com/avast/retry-go/v4."
@@ -529,6 +531,26 @@ func (c *Ctx) c14Siblings() {
 				}
 			})
 			c.check(ok4, "O4", key+"/fallback", c.pos(f.Pos()), "delegates (min, max, attempt, resp) unchanged", "the linear policy no longer delegates (min, max, attemptNum, resp) unchanged to LinearJitterBackoff")
+			// LinearJitterBackoff multiplies by the attempt number without an overflow check: the delegation is reached only
+			// past a test of the attempt number against MaxInt64 divided by a bound
+			guarded := false
+			allInstrs(f, func(in ssa.Instruction) {
+				cl, ok := in.(*ssa.Call)
+				if !ok || !strings.HasSuffix(calleeFull(&cl.Call), "go-retryablehttp.LinearJitterBackoff") {
+					return
+				}
+				for _, b := range f.Blocks {
+					ifi, isIf := b.Instrs[len(b.Instrs)-1].(*ssa.If)
+					if !isIf || !(edgeDominates(b, 0, cl.Block()) || edgeDominates(b, 1, cl.Block())) {
+						continue
+					}
+					if c14RepresentabilityTest(ifi.Cond, f.Params[3], 0) {
+						guarded = true
+					}
+				}
+			})
+			c.check(guarded, "O4", key+"/fallback:representable", c.pos(f.Pos()), "delegation reached only where (attempt+1)·bound fits a duration",
+				"the linear policy hands any attempt number to LinearJitterBackoff, which multiplies without an overflow check: for attempt numbers beyond MaxInt64/max the wait wraps around and is negative (Apply(1h, 1h, 2562047, nil))")
 		case "ExponentialBackoffPolicy":
 			// on the !ConsiderRetryAfter side: returns max or a value guarded by both tests
 			ok4 := true
@@ -1008,4 +1030,129 @@ func keysOf(m map[int64]bool) []int64 {
 	}
 	sort.Slice(out, func(i, j int) bool { return out[i] < out[j] })
 	return out
+}
+
+// c14ClockWaits (O9): "the wait computed between HTTP attempts is never negative". A duration obtained by subtracting the
+// clock from a date is negative whenever the date is not in the future — and testing the date against one reading of the clock
+// before subtracting another reading does not help (the date may fall between the two). Decided: the difference itself is
+// what is clamped: besides comparisons it only flows into a merge (phi) whose lower bound, given the branch conditions on the
+// incoming edges, is at least 0 — or into max(0, …).
+func (c *Ctx) c14ClockWaits() {
+	n := 0
+	for _, f := range c.srcFuncs("http") {
+		allInstrs(f, func(in ssa.Instruction) {
+			cl, ok := in.(*ssa.Call)
+			if !ok {
+				return
+			}
+			switch calleeFull(&cl.Call) {
+			case "time.Until", "(time.Time).Sub":
+			default:
+				return
+			}
+			n++
+			c.FuncsSeen[fname(f)] = true
+			key := fname(f) + "/clock-difference"
+			bad := ""
+			var visit func(v ssa.Value, depth int)
+			visit = func(v ssa.Value, depth int) {
+				if v.Referrers() == nil || depth > 4 {
+					return
+				}
+				for _, r := range *v.Referrers() {
+					switch x := r.(type) {
+					case *ssa.BinOp:
+						switch x.Op {
+						case token.LSS, token.LEQ, token.GTR, token.GEQ, token.EQL, token.NEQ:
+							continue
+						}
+						bad = c.ipos(r) + ": used in arithmetic before any clamp"
+					case *ssa.Phi:
+						// the branch conditions that hold on the edge the difference comes in by
+						for i, e := range x.Edges {
+							if e != v {
+								continue
+							}
+							if g := guardsOnEdge(v, x.Block().Preds[i], x.Block()); !(g.hasLo && g.lo.Sign() >= 0) {
+								bad = c.ipos(r) + ": merged into the result on an edge where it has not been found to be at least 0"
+							}
+						}
+					case *ssa.Convert, *ssa.ChangeType:
+						visit(x.(ssa.Value), depth+1)
+					case *ssa.Call:
+						if b, isB := x.Call.Value.(*ssa.Builtin); isB && (b.Name() == "max" || b.Name() == "min") {
+							if bo := boundsOf(x, 0); !(bo.hasLo && bo.lo.Sign() >= 0) {
+								bad = c.ipos(r) + ": the result of " + b.Name() + "() has no lower bound at 0"
+							}
+							continue
+						}
+						bad = c.ipos(r) + ": handed on unclamped"
+					case *ssa.DebugRef:
+					default:
+						bad = c.ipos(r) + ": used (returned, stored) unclamped"
+					}
+				}
+			}
+			visit(cl, 0)
+			c.check(bad == "", "O9", key, c.ipos(cl), "the difference with the clock is clamped at 0 before use",
+				"the duration obtained from the clock is "+bad+": a date that is not (or no longer, between two readings of the clock) in the future gives a negative wait")
+		})
+	}
+	c.Extra["clock_differences"] = n
+}
+
+// c14RepresentabilityTest: v is (the negation of, a call of a package predicate returning) an ordering comparison between a
+// value computed from attempt and a quotient whose dividend is the constant MaxInt64.
+func c14RepresentabilityTest(v ssa.Value, attempt ssa.Value, depth int) bool {
+	if depth > 3 {
+		return false
+	}
+	switch x := v.(type) {
+	case *ssa.UnOp:
+		if x.Op == token.NOT {
+			return c14RepresentabilityTest(x.X, attempt, depth+1)
+		}
+	case *ssa.BinOp:
+		switch x.Op {
+		case token.LSS, token.LEQ, token.GTR, token.GEQ:
+			for _, pair := range [][2]ssa.Value{{x.X, x.Y}, {x.Y, x.X}} {
+				if c11DependsOn(pair[0], []ssa.Value{attempt}, map[ssa.Value]bool{}, 0) && c14IsMaxQuotient(pair[1]) {
+					return true
+				}
+			}
+		}
+	case *ssa.Call:
+		g := staticCallee(&x.Call)
+		if g == nil || len(g.Blocks) == 0 {
+			return false
+		}
+		for i, a := range x.Call.Args {
+			if i < len(g.Params) && c11DependsOn(a, []ssa.Value{attempt}, map[ssa.Value]bool{}, 0) {
+				found := false
+				allInstrs(g, func(in ssa.Instruction) {
+					if r, ok := in.(*ssa.Return); ok && len(r.Results) == 1 {
+						for _, l := range sources(r.Results[0], deriveOpts{}) {
+							if c14RepresentabilityTest(l, g.Params[i], depth+1) {
+								found = true
+							}
+						}
+					}
+				})
+				if found {
+					return true
+				}
+			}
+		}
+	}
+	return false
+}
+
+func c14IsMaxQuotient(v ssa.Value) bool {
+	v = stripConv(v)
+	bo, ok := v.(*ssa.BinOp)
+	if !ok || bo.Op != token.QUO {
+		return false
+	}
+	k, isC := constBig(bo.X)
+	return isC && k.Cmp(new(big.Int).SetUint64(1<<63-1)) == 0
 }
